@@ -195,7 +195,13 @@ class AuthServerDriver:
                 line = [b'\xff\xfe AUTH', b'BEG\xc3\xa9IN', b'\xffAUTH ANONYMOUS', b'BEGIN\x80', b'CAN\x80CEL',
                         b'DA\xe9TA 00', b'\xc3\xa9BEGIN'][NONTEXT[0] % 7]
             else:
-                line = {'negotiate': b'NEGOTIATE_UNIX_FD', 'unknown': b'FOO bar', 'empty': b''}[args[0]]
+                if args[0] == 'unknown':
+                    # words a peer has no business sending - among them the commands of the SERVER side of the protocol
+                    NONTEXT[0] += 1
+                    line = [b'FOO bar', b'OK', b'OK 1234deadbeef', b'REJECTED EXTERNAL', b'AGREE_UNIX_FD', b'begin', b'Auth ANONYMOUS',
+                            b'OK_', b'STEP'][NONTEXT[0] % 9]
+                else:
+                    line = {'negotiate': b'NEGOTIATE_UNIX_FD', 'empty': b''}[args[0]]
         elif name == 'AfterClose':
             if args[0] == 'begin':
                 line = b'BEGIN'
